@@ -430,14 +430,18 @@ pub fn run_one(prop: &'static str, run: u64, seed: u64) -> RunOut {
     // C19: failing calls injected by a dedicated client
     let fail_kinds: Vec<&'static str> = if c19 { (0..rng.below(3)).map(|_| *rng.pick(&["unknown-method", "unknown-method", "oversize-reply"])).collect() } else { vec![] };
     // C19: a client on a connection of its own that is cut while large replies are on their way
-    let doomed: Option<(crate::simnet::FaultKind, bool, usize, Vec<u32>)> = (c19 && rng.chance(40)).then(|| {
-        (
-            *rng.pick(&[crate::simnet::FaultKind::SinkError, crate::simnet::FaultKind::StreamError, crate::simnet::FaultKind::Eof]),
-            rng.chance(70),
-            1 + rng.usize_below(60),
-            (0..1 + rng.below(3)).map(|_| *rng.pick(&[3_000u32, 20_000, 60_000])).collect(),
-        )
-    });
+    // (0, 1 or 2 such clients; with two, the connections are lost one after the other)
+    let n_doomed = if c19 { *rng.pick(&[0usize, 0, 0, 1, 1, 2]) } else { 0 };
+    let doomed: Vec<(crate::simnet::FaultKind, bool, usize, Vec<u32>)> = (0..n_doomed)
+        .map(|i| {
+            (
+                *rng.pick(&[crate::simnet::FaultKind::SinkError, crate::simnet::FaultKind::StreamError, crate::simnet::FaultKind::Eof]),
+                rng.chance(70),
+                1 + rng.usize_below(60) + 80 * i,
+                (0..1 + rng.below(3)).map(|_| *rng.pick(&[3_000u32, 20_000, 60_000])).collect(),
+            )
+        })
+        .collect();
     let replay = json!({"run": run, "seed": seed, "doomed_connection": format!("{doomed:?}"), "flavour": format!("{flavour:?}"), "cfg_a": cfg_json(&cfg_a), "cfg_b": cfg_json(&cfg_b), "net": netcfg_class(&netcfg),
         "h1_pct": h1, "local_clients": n_local, "remote_clients": n_remote, "failing_calls": fail_kinds,
         "scripts": scripts.iter().map(|s| s.iter().map(|(i, o)| format!("#{i} {o:?}")).collect::<Vec<_>>()).collect::<Vec<_>>()});
@@ -535,8 +539,8 @@ pub fn run_one(prop: &'static str, run: u64, seed: u64) -> RunOut {
                 }
             })));
         }
-        let mut doomed_task = None;
-        if let Some((kind, reply_dir, after, sizes)) = doomed.clone() {
+        let mut doomed_tasks = Vec::new();
+        for (kind, reply_dir, after, sizes) in doomed.clone() {
             let (net3, a3, b3, sched3) = connect_rch_hetero::<RShip, (), (), RShip>(rch_cfg(&mut rng), rch_cfg(&mut rng), draw_netcfg(&mut rng), &mut rng).await?;
             let RchEnd { tx: mut tx3, rx: rxa3, conn: ca3 } = a3;
             let RchEnd { tx: txb3, rx: mut rx3, conn: cb3 } = b3;
@@ -551,7 +555,7 @@ pub fn run_one(prop: &'static str, run: u64, seed: u64) -> RunOut {
             let res3 = results.clone();
             let net3b = net3.clone();
             keep.push(Box::new((tx3, rxa3, ca3, txb3, rx3, cb3, sched3)));
-            doomed_task = Some((results, net3, crate::sched::spawn(async move {
+            doomed_tasks.push((results, net3, crate::sched::spawn(async move {
                 for (k, size) in sizes.iter().enumerate() {
                     let r = dc.blob(800_000 + k as u64, *size).await;
                     res3.lock().unwrap().push(format!("blob({size}) fault_fired={}: {}", net3b.fault_fired(), match r { Ok(v) => format!("Ok(len {})", v.len()), Err(e) => format!("Err({e})") }));
@@ -561,7 +565,7 @@ pub fn run_one(prop: &'static str, run: u64, seed: u64) -> RunOut {
         }
         for _ in 0..300 {
             settle().await;
-            if tasks.iter().all(|t| t.is_finished()) && doomed_task.as_ref().map(|t| t.2.is_finished()).unwrap_or(true) && fail_task.as_ref().map(|t| t.1.is_finished()).unwrap_or(true) {
+            if tasks.iter().all(|t| t.is_finished()) && doomed_tasks.iter().all(|t| t.2.is_finished()) && fail_task.as_ref().map(|t| t.1.is_finished()).unwrap_or(true) {
                 break;
             }
             tokio::time::sleep(Duration::from_millis(3)).await;
@@ -679,14 +683,14 @@ pub fn run_one(prop: &'static str, run: u64, seed: u64) -> RunOut {
                     }
                 }
             }
-            if let Some((results, net3, t)) = &doomed_task {
+            for (results, net3, t) in &doomed_tasks {
                 let rs = results.lock().unwrap().clone();
                 out.count("cut_connections", net3.fault_fired() as u64);
                 for r in &rs {
                     out.item("calls_over_cut_connection", r.split(':').next().unwrap_or("").split(' ').skip(1).collect::<Vec<_>>().join(" ") + if r.contains("Ok(") { " ok" } else { " failed" });
                 }
                 if !t.is_finished() {
-                    bad.push(("C19:call-pending-after-connection-cut".into(), format!("the connection of a client was cut ({:?}) and its call is still pending at quiescence; outcomes so far {rs:?}", doomed.as_ref().map(|d| d.0))));
+                    bad.push(("C19:call-pending-after-connection-cut".into(), format!("the connection of a client was cut ({:?}) and its call is still pending at quiescence; outcomes so far {rs:?}", doomed.iter().map(|d| d.0).collect::<Vec<_>>())));
                 }
             }
             if let Some(s) = &sr {
